@@ -98,10 +98,10 @@ theorem setPart_paid (b : Book) (p p' : Part) (hs : Sorted Part.key b.parts) (hp
 -- ---------------------------------------------------------------------------------------------
 -- reading the books after a write
 
-theorem getBook_setBook_self (s : State) (b : Book) : getBook (setBook s b) b.uid = some b :=
+theorem getBook_setBook_selfSB (s : State) (b : Book) : getBook (setBook s b) b.uid = some b :=
   lookup_upsert_self Book.key b s.books
 
-theorem getBook_setBook_ne (s : State) (b : Book) (u : Nat) (h : b.uid ≠ u) : getBook (setBook s b) u = getBook s u :=
+theorem getBook_setBook_neSB (s : State) (b : Book) (u : Nat) (h : b.uid ≠ u) : getBook (setBook s b) u = getBook s u :=
   lookup_upsert_ne Book.key b [u] s.books (by simp [Book.key, h])
 
 /-- writing back a book with the same uid, status and number of unpaid participations -/
@@ -111,9 +111,9 @@ theorem SameBooks.setBook {s : State} {b b' : Book} (hb : getBook s b'.uid = som
   unfold statusOf unpaidOf
   by_cases e : b'.uid = u
   · subst e
-    rw [getBook_setBook_self, hb]
+    rw [getBook_setBook_selfSB, hb]
     simp [hst, hun]
-  · rw [getBook_setBook_ne _ _ _ e]
+  · rw [getBook_setBook_neSB _ _ _ e]
     exact ⟨rfl, rfl⟩
 
 -- ---------------------------------------------------------------------------------------------
@@ -448,10 +448,10 @@ theorem betEndBlockStep_spec {s : State} {mk n : Nat} {R : List Nat} {r : State 
       by_cases e : u = mk
       · subst e
         simp only [if_true]
-        have := getBook_setBook_self { r0.1 with mqueue := R } { b with status := OB_RESOLVED }
+        have := getBook_setBook_selfSB { r0.1 with mqueue := R } { b with status := OB_RESOLVED }
         rw [← hbu]; exact this
       · simp only [e, if_false]
-        exact getBook_setBook_ne _ _ u (by show b.uid ≠ u; rw [hbu]; exact Ne.symm e)
+        exact getBook_setBook_neSB _ _ u (by show b.uid ≠ u; rw [hbu]; exact Ne.symm e)
     refine ⟨?_, ?_, ?_⟩
     · intro u
       rw [← (g2 u).2]
